@@ -13,6 +13,11 @@ Re-read from /repo's *current* sources on every run:
   os.urandom, the order of the concatenation returned by encrypt, the minimum length and the
   literal tag length in it, the three slices of decrypt, the KDF parameters, the argument order of
   the AEAD calls;
+* archive.py, size dependence: every test in create_backup_archive / read_backup_archive / _add_bytes_to_tar that
+  looks at a length or a member size (`len(..)`, `.size`, a bounded `.read(n)`) and every integer >= 1024 the module
+  defines or those functions mention (`sizeTests`, `sizeConstants`; both empty today: the archive layer treats
+  contents as opaque whatever their length, which is what the model does). The harness also builds its large
+  members around these values (`size_hints`);
 * core/schema/deployments.py: the DNS-1035 regex that deployment names are validated with.
 
 The model (`WfModel/Archive.lean`) computes with these values; `C33_source_shape` pins the rest.
@@ -455,6 +460,71 @@ def extract_encryption(tree: ast.Module | None, notes: list[str]) -> dict:
     return r
 
 
+SIZE_FUNCS = ("create_backup_archive", "read_backup_archive", "_add_bytes_to_tar")
+SIZE_FLOOR = 1024
+COUNTED = ("deployments", "secrets", "generations")
+
+
+def extract_sizes(tree: ast.Module | None, notes: list[str]) -> dict:
+    """Size-dependent behaviour of the archive layer: tests on lengths / member sizes, bounded reads, size constants."""
+    r: dict[str, Any] = {"sizeTests": [], "sizeConstants": []}
+    if tree is None:
+        r["sizeTests"] = ["<missing>"]
+        return r
+    env = _int_consts(tree)
+    consts = {v for v in env.values() if v >= SIZE_FLOOR}
+    tests: list[str] = []
+    found = 0
+    for fname in SIZE_FUNCS:
+        fn = _func(tree, fname)
+        if fn is None:
+            notes.append(f"gen/archive: {fname} not found (size tests)")
+            tests.append(f"<missing {fname}>")
+            continue
+        found += 1
+        for n in ast.walk(fn):
+            test = None
+            if isinstance(n, (ast.If, ast.While, ast.IfExp, ast.Assert)):
+                test = n.test
+            elif isinstance(n, ast.comprehension) and n.ifs:
+                test = ast.BoolOp(op=ast.And(), values=list(n.ifs)) if len(n.ifs) > 1 else n.ifs[0]
+            if test is not None:
+                src = ast.unparse(test)
+                # counting the deployments / secrets / generations handed in is not a size test
+                lens = [ast.unparse(c.args[0]) for c in ast.walk(test) if isinstance(c, ast.Call) and isinstance(c.func, ast.Name)
+                        and c.func.id == "len" and len(c.args) == 1]
+                if any(a not in COUNTED for a in lens) or ".size" in src or "sizeof" in src or "nbytes" in src:
+                    tests.append(f"{fname}: {src}")
+            if isinstance(n, ast.Call) and isinstance(n.func, ast.Attribute) and n.func.attr in ("read", "read1", "readinto") \
+                    and (n.args or n.keywords):
+                tests.append(f"{fname}: bounded {ast.unparse(n)}")
+            if isinstance(n, (ast.Constant, ast.BinOp, ast.Name)):
+                v = _eval(n, env)
+                if isinstance(v, int) and v >= SIZE_FLOOR:
+                    consts.add(v)
+    r["sizeTests"] = tests
+    r["sizeConstants"] = sorted(consts)
+    return r
+
+
+def size_hints(notes: list[str] | None = None) -> list[int]:
+    """Integers of the backup modules that could be size bounds (for the harness: build members just below / at / above):
+    archive.py's size constants, and in encryption.py every evaluable integer >= 1024 inside a comparison."""
+    notes = [] if notes is None else notes
+    a = _parse(ARCHIVE, notes)
+    e = _parse(ENCRYPTION, notes)
+    res = set(extract_sizes(a, notes)["sizeConstants"])
+    if e is not None:
+        env = _int_consts(e)
+        for n in ast.walk(e):
+            if isinstance(n, ast.Compare):
+                for x in ast.walk(n):
+                    v = _eval(x, env) if isinstance(x, (ast.Constant, ast.BinOp, ast.Name)) else None
+                    if isinstance(v, int) and v >= SIZE_FLOOR:
+                        res.add(v)
+    return sorted(res)
+
+
 def extract_dns(tree: ast.Module | None, notes: list[str]) -> str:
     if tree is not None:
         for n in ast.walk(tree):
@@ -470,12 +540,12 @@ def extract(notes: list[str]) -> dict:
     e = _parse(ENCRYPTION, notes)
     s = _parse(SCHEMA, notes)
     return {"w": extract_writer(a, notes), "r": extract_reader(a, notes), "e": extract_encryption(e, notes),
-            "dns": extract_dns(s, notes)}
+            "dns": extract_dns(s, notes), "z": extract_sizes(a, notes)}
 
 
 def generate(notes: list[str]) -> list[str]:
     x = extract(notes)
-    w, r, e = x["w"], x["r"], x["e"]
+    w, r, e, z = x["w"], x["r"], x["e"], x["z"]
     b = lambda v: "true" if v else "false"
     strs = lambda l: "[" + ", ".join(lean_str(str(s)) for s in l) + "]"
     chain = "[" + ",\n   ".join(f"({b(k)}, {lean_chars(lit)}, {lean_chars(rm)}, {code})" for k, lit, rm, code in r["chain"]) + "]"
@@ -513,6 +583,10 @@ def generate(notes: list[str]) -> list[str]:
         f"def genKeyRead : String := {lean_str(r['genKeyRead'])}",
         f"def entriesFromCrFiles : Bool := {b(r['entriesFromCrFiles'])}",
         f"def skipsNonFiles : Bool := {b(r['skipsNonFiles'])}",
+        "/-- tests on a length / member size and bounded reads in create_backup_archive, read_backup_archive, _add_bytes_to_tar -/",
+        f"def sizeTests : List String := {strs(z['sizeTests'])}",
+        "/-- integers >= 1024 that archive.py defines at module level or mentions in those functions -/",
+        f"def sizeConstants : List Nat := {z['sizeConstants']}",
         "/-! encryption.py -/",
         f"def saltLength : Nat := {e['saltLength']}",
         f"def nonceLength : Nat := {e['nonceLength']}",
